@@ -14,7 +14,9 @@ measurement count (any number of mask words).
 
 Sections: tree level (eval_test … fixed_projection_*), aliasing (heap model), text level
 (eval_test_text, text_semantics and its instances value_list_sugar_text, juxtaposition_is_and,
-or_is_or, minus_is_not, star_is_true; text_accepted_converts, newFilter_models_agree).
+or_is_or, minus_is_not, star_is_true; text_accepted_converts, newFilter_models_agree), regular-expression
+values with the matcher as a parameter (text_semantics_rx, regex_term_text) and the parameter-free
+anchored-literal sub-language (rxLit_spec, text_semantics_litre, anchored_literal_text).
 -/
 import Proofs.Lemmas.C06Walk
 import Proofs.Lemmas.C06Match
@@ -23,6 +25,7 @@ import Proofs.Lemmas.C06ParseInd
 import Proofs.Lemmas.C06Heap
 import Proofs.Lemmas.C06WF
 import Proofs.Lemmas.C06LitRe
+import Proofs.Lemmas.C06Rx
 
 namespace C06
 open Proc.FilterEval Spec.FilterSem Proc.Extract Proc.Tok Proc.FilterText Proc.FilterHeap C07
@@ -388,6 +391,16 @@ theorem renderE_single (a : List (Bool × S)) : renderE [a] = renderA a := by rw
 theorem renderA_single (b : Bool) (s : S) : renderA [(b, s)] = render s := by
   rw [renderA, renderT, List.append_nil]
 
+/-- a word / a regular expression as a value of the surface syntax -/
+def SV.word (txt val : Bytes) : SV := { re := false, txt := txt, val := val }
+def SV.regex (src : Bytes) : SV := { re := true, txt := cSlash :: (src ++ [cSlash]), val := src }
+
+theorem okV_word {cx : Ctx} {k : UInt8} {txt val : Bytes} (h : Word cx true k txt val) : okV cx (SV.word txt val) :=
+  ⟨k, Val.word h, by rcases h.kind with rfl | rfl <;> rfl⟩
+
+theorem okV_regex {cx : Ctx} {src : Bytes} (h : RegexOK cx src) : okV cx (SV.regex src) :=
+  ⟨kR, Val.regex src h, rfl⟩
+
 theorem any_termHolds_mem (re : ReOracle) (res : Res) (i : Nat) (kv : Bytes) (hk : kv ≠ dotUnit) :
     ∀ vs : List (Bytes × Bytes),
       vs.any (fun p => termHolds re res i kv (.lit p.2)) = decide (keyValue kv res ∈ vs.map (·.2))
@@ -400,20 +413,26 @@ theorem any_termHolds_mem (re : ReOracle) (res : Res) (i : Nat) (kv : Bytes) (hk
 
 /-- **value_list_sugar_text**: for a key word `k` and words a₁ … aₙ (bare under C07's conditions,
 or quoted literals) the text `k:(a₁ OR … OR aₙ)` is accepted and means "the key's value is one of
-a₁ … aₙ" (for `.unit`: some aᵢ matches measurement i's unit). -/
+a₁ … aₙ" (for `.unit`: some aᵢ matches measurement i's unit). (Lists that also contain regular
+expressions: `text_semantics`.) -/
 theorem value_list_sugar_text (cx : Ctx) {k1 : UInt8} {kt kv : Bytes} (hk : Word cx false k1 kt kv)
-    (vs : List (Bytes × Bytes)) (hne : vs ≠ []) (hw : ∀ p, p ∈ vs → ∃ k, Word cx true k p.1 p.2) :
-    ∃ t, filterOfText cx (kt ++ cColon :: cLP :: (renderVs vs ++ [cRP])) = .ok t ∧
+    (ws : List (Bytes × Bytes)) (hne : ws ≠ []) (hw : ∀ p, p ∈ ws → ∃ k, Word cx true k p.1 p.2) :
+    ∃ t, filterOfText cx (kt ++ cColon :: cLP :: (renderVs (ws.map fun p => SV.word p.1 p.2) ++ [cRP])) = .ok t ∧
       ∀ re res i,
-        denote re res i t = vs.any (fun p => termHolds re res i kv (.lit p.2)) ∧
-        (kv ≠ dotUnit → denote re res i t = decide (keyValue kv res ∈ vs.map (·.2))) := by
-  obtain ⟨t, ht, hd⟩ := text_semantics cx [[(false, .list kt kv vs)]] (by simp)
-    (by simp only [okE, okT, okS]; exact ⟨by simp, ⟨⟨⟨k1, hk⟩, hne, hw⟩, trivial⟩, trivial⟩)
+        denote re res i t = ws.any (fun p => termHolds re res i kv (.lit p.2)) ∧
+        (kv ≠ dotUnit → denote re res i t = decide (keyValue kv res ∈ ws.map (·.2))) := by
+  have hokv : ∀ v, v ∈ ws.map (fun p => SV.word p.1 p.2) → okV cx v := by
+    intro v hv
+    obtain ⟨p, hp, rfl⟩ := List.mem_map.mp hv
+    obtain ⟨k, hk'⟩ := hw p hp
+    exact okV_word hk'
+  obtain ⟨t, ht, hd⟩ := text_semantics cx [[(false, .list kt kv (ws.map fun p => SV.word p.1 p.2))]] (by simp)
+    (by simp only [okE, okT, okS]; exact ⟨by simp, ⟨⟨⟨k1, hk⟩, by simpa using hne, hokv⟩, trivial⟩, trivial⟩)
   rw [renderE_single, renderA_single, render] at ht
   refine ⟨t, ht, fun re res i => ?_⟩
-  have h1 : denote re res i t = vs.any (fun p => termHolds re res i kv (.lit p.2)) := by
-    rw [hd]; simp [semE, semT, sem]
-  exact ⟨h1, fun hne' => by rw [h1, any_termHolds_mem re res i kv hne' vs]⟩
+  have h1 : denote re res i t = ws.any (fun p => termHolds re res i kv (.lit p.2)) := by
+    rw [hd]; simp [semE, semT, sem, List.any_map, SV.matcher, SV.word, Function.comp_def]
+  exact ⟨h1, fun hne' => by rw [h1, any_termHolds_mem re res i kv hne' ws]⟩
 
 /-- **juxtaposition_is_and**: well-formed terms written one after the other, separated by a space
 or by ` AND `, are accepted and mean the conjunction of the terms. -/
@@ -478,18 +497,18 @@ theorem w_bop : Word cx0 true kQ (cQuote :: (bBop ++ [cQuote])) bBop :=
 
 /-- `.unit:(ns/op OR "B/op") AND -goos:linux *` -/
 def exE : List (List (Bool × S)) :=
-  [[(false, .list bUnit bUnit [(bNsOp, bNsOp), (cQuote :: (bBop ++ [cQuote]), bBop)]),
-    (true, .neg (.term bGoos bGoos bLinux bLinux)),
+  [[(false, .list bUnit bUnit [SV.word bNsOp bNsOp, SV.word (cQuote :: (bBop ++ [cQuote])) bBop]),
+    (true, .neg (.term bGoos bGoos (SV.word bLinux bLinux))),
     (false, .star)]]
 
 theorem exE_ok : okE cx0 exE := by
   simp only [exE, okE, okT, okS]
-  refine ⟨by simp, ⟨⟨⟨_, w_unit⟩, by simp, ?_⟩, ⟨⟨_, w_goos⟩, ⟨_, w_linux⟩⟩, trivial, trivial⟩, trivial⟩
+  refine ⟨by simp, ⟨⟨⟨_, w_unit⟩, by simp, ?_⟩, ⟨⟨_, w_goos⟩, okV_word w_linux⟩, trivial, trivial⟩, trivial⟩
   intro p hp
   simp only [List.mem_cons, List.not_mem_nil, or_false] at hp
   rcases hp with rfl | rfl
-  · exact ⟨_, w_nsop⟩
-  · exact ⟨_, w_bop⟩
+  · exact okV_word w_nsop
+  · exact okV_word w_bop
 
 example : renderE exE = Bytes.ofString ".unit:(ns/op OR \"B/op\") AND -goos:linux *" := by decide +kernel
 
@@ -505,6 +524,138 @@ example :
        let m := filterMatch f { name := [70, 111, 111], config := [(bGoos, [100])],
                                  values := [⟨bNsOp, [], 0⟩, ⟨bBop, [], 1⟩, ⟨[120], [], 2⟩] }
        m.test 0 && m.test 1 && !m.test 2
+     | .error _ => false) = true := by decide +kernel
+
+/-! ### regular-expression values: the matcher as a parameter -/
+
+/-- what the term `key:/src/` means at measurement `i` when `rx src v` says whether the regular
+expression `src` matches `v` (what Go's regexp decides; a parameter) -/
+def rxTerm (rx : Bytes → Bytes → Bool) (res : Res) (i : Nat) (kv src : Bytes) : Bool :=
+  if kv = dotUnit then
+    match res.values[i]? with
+    | some v => rx src v.unit || (decide (v.origUnit ≠ []) && rx src v.origUnit)
+    | none => false
+  else rx src (keyValue kv res)
+
+/-- the meaning of a value of the surface syntax under `rx` -/
+def valMeaning (rx : Bytes → Bytes → Bool) (res : Res) (i : Nat) (kv : Bytes) (v : SV) : Bool :=
+  if v.re then rxTerm rx res i kv v.val else termHolds (fun _ _ => false) res i kv (.lit v.val)
+
+theorem termHolds_lit_oracle (re re' : ReOracle) (res : Res) (i : Nat) (kv val : Bytes) :
+    termHolds re res i kv (.lit val) = termHolds re' res i kv (.lit val) := by
+  simp [termHolds, valueHolds]
+
+theorem matcher_meaning (rx : Bytes → Bytes → Bool) (res : Res) (i : Nat) (kv : Bytes) (v : SV) :
+    termHolds (oracleOf rx) res i kv v.matcher = valMeaning rx res i kv v := by
+  unfold valMeaning SV.matcher
+  cases v.re
+  · simp only [Bool.false_eq_true, if_false]; exact termHolds_lit_oracle _ _ res i kv v.val
+  · simp only [if_true, termHolds, valueHolds, oracleOf_reId, rxTerm]
+    by_cases hk : kv = dotUnit
+    · simp only [hk, if_true]
+      cases res.values[i]? with
+      | none => rfl
+      | some w => rfl
+    · simp [hk]
+
+/-- the meaning of terms and value lists under `rx`, spelled out -/
+theorem sem_term_rx (rx : Bytes → Bytes → Bool) (res : Res) (i : Nat) (kt kv : Bytes) (v : SV) :
+    sem (oracleOf rx) res i (.term kt kv v) = valMeaning rx res i kv v := by
+  rw [sem, matcher_meaning]
+
+theorem sem_list_rx (rx : Bytes → Bytes → Bool) (res : Res) (i : Nat) (kt kv : Bytes) (vs : List SV) :
+    sem (oracleOf rx) res i (.list kt kv vs) = vs.any (valMeaning rx res i kv) := by
+  rw [sem]; congr 1; funext p; exact matcher_meaning rx res i kv p
+
+/-- **text_semantics_rx**: every well-formed expression — now including regular-expression values
+`/src/` in single terms and at every position of a value list, under `-`, juxtaposition/`AND`,
+`OR` and parentheses, where `src` scans to the top level (brackets, parentheses, escapes as in
+`regexpParseUntil`) and compiles — is accepted by the parser model, and for EVERY matcher `rx`
+the tree denotes the ordinary boolean meaning of the expression with `rx` at the regexp leaves
+(`sem_term_rx`, `sem_list_rx` spell the leaves out). -/
+theorem text_semantics_rx (cx : Ctx) (E : List (List (Bool × S))) (hne : E ≠ []) (hok : okE cx E) :
+    ∃ t, filterOfText cx (renderE E) = .ok t ∧
+      ∀ (rx : Bytes → Bytes → Bool) res i, denote (oracleOf rx) res i t = semE (oracleOf rx) res i E := by
+  obtain ⟨t, ht, hd⟩ := text_semantics cx E hne hok
+  exact ⟨t, ht, fun rx res i => hd (oracleOf rx) res i⟩
+
+/-- **regex_term_text**: `key:/src/` is accepted and means "`rx src` matches the key's value"
+(for `.unit`: measurement i's unit or written unit). -/
+theorem regex_term_text (cx : Ctx) {k1 : UInt8} {kt kv : Bytes} (hk : Word cx false k1 kt kv)
+    (src : Bytes) (hre : RegexOK cx src) :
+    ∃ t, filterOfText cx (kt ++ cColon :: cSlash :: (src ++ [cSlash])) = .ok t ∧
+      ∀ (rx : Bytes → Bytes → Bool) res i, denote (oracleOf rx) res i t = rxTerm rx res i kv src := by
+  obtain ⟨t, ht, hd⟩ := text_semantics_rx cx [[(false, .term kt kv (SV.regex src))]] (by simp)
+    (by simp only [okE, okT, okS]; exact ⟨by simp, ⟨⟨⟨k1, hk⟩, okV_regex hre⟩, trivial⟩, trivial⟩)
+  rw [renderE_single, renderA_single, render] at ht
+  refine ⟨t, ht, fun rx res i => ?_⟩
+  rw [hd]
+  simp only [semE, semT, sem_term_rx, Bool.and_true, Bool.or_false]
+  simp [valMeaning, SV.regex]
+
+/-! ### the anchored-literal sub-language: no parameter left -/
+
+/-- **rxLit_spec**: for a source of the literal sub-language the matcher `rxLit` says: the value is
+`p ++ literal ++ s`, `p` empty under a start anchor, `s` empty under an end anchor. -/
+theorem rxLit_spec (src : Bytes) (r : Spec.LitRegexp.LitRe) (h : Spec.LitRegexp.parse src = some r) (v : Bytes) :
+    rxLit src v = true ↔
+      ∃ p s, v = p ++ r.lit ++ s ∧ (r.anchS = true → p = []) ∧ (r.anchE = true → s = []) := by
+  simp only [rxLit, h]; exact litre_matches_spec r v
+
+/-- **text_semantics_litre**: with the specification-level matcher `rxLit` in place of Go's regexp
+the whole chain text → tree → meaning is parameter-free. -/
+theorem text_semantics_litre (cx : Ctx) (E : List (List (Bool × S))) (hne : E ≠ []) (hok : okE cx E) :
+    ∃ t, filterOfText cx (renderE E) = .ok t ∧
+      ∀ res i, denote (oracleOf rxLit) res i t = semE (oracleOf rxLit) res i E := by
+  obtain ⟨t, ht, hd⟩ := text_semantics_rx cx E hne hok
+  exact ⟨t, ht, fun res i => hd rxLit res i⟩
+
+theorem rxLit_anchored (lit : Bytes) (h : PlainLit lit) (v : Bytes) :
+    rxLit (94 :: (lit ++ [36])) v = decide (v = lit) := by
+  simp only [rxLit, parse_anchored lit h, Spec.LitRegexp.LitRe.matches]
+  by_cases hv : v = lit <;> simp [hv]
+
+theorem regexOK_anchored (cx : Ctx) (lit : Bytes) (h : PlainLit lit)
+    (hc : cx.compileOK (94 :: (lit ++ [36])) = true) : RegexOK cx (94 :: (lit ++ [36])) := by
+  refine ⟨reState_plain _ ?_, hc⟩
+  intro c hcm
+  simp only [List.mem_cons, List.mem_append, List.not_mem_nil, or_false] at hcm
+  rcases hcm with rfl | hl | rfl
+  · decide
+  · obtain ⟨h1, _, h3⟩ := h c hl
+    refine ⟨h3, ?_, ?_, ?_, ?_, ?_⟩ <;> (intro e; subst e; exact absurd h1 (by decide))
+  · decide
+
+/-- **anchored_literal_text**: for a key word (not `.unit`) and a plain literal, the text
+`key:/^literal$/` is accepted (given that Go compiles the expression) and, with regular
+expressions decided by the specification matcher, holds iff the key's value IS the literal —
+and `Test(i)` of the filter compiled from that text says exactly that. (This is the clause
+seed C06-G broke: it made such a term mean "contains".) -/
+theorem anchored_literal_text (cx : Ctx) {k1 : UInt8} {kt kv : Bytes} (hk : Word cx false k1 kt kv)
+    (hkv : kv ≠ dotUnit) (lit : Bytes) (hp : PlainLit lit) (hc : cx.compileOK (94 :: (lit ++ [36])) = true) :
+    ∃ t, filterOfText cx (kt ++ cColon :: cSlash :: ((94 :: (lit ++ [36])) ++ [cSlash])) = .ok t ∧
+      (∀ res i, denote (oracleOf rxLit) res i t = decide (keyValue kv res = lit)) ∧
+      (∀ f, walk (oracleOf rxLit) t = .ok f → ∀ res i, i < res.values.length →
+        (filterMatch f res).test i = decide (keyValue kv res = lit)) := by
+  obtain ⟨t, ht, hd⟩ := regex_term_text cx hk _ (regexOK_anchored cx lit hp hc)
+  have hm : ∀ res i, denote (oracleOf rxLit) res i t = decide (keyValue kv res = lit) := by
+    intro res i
+    rw [hd rxLit res i]
+    simp only [rxTerm, hkv, if_false, rxLit_anchored lit hp]
+  exact ⟨t, ht, hm, fun f hw res i hi => by rw [eval_test _ t f res i hw hi, hm]⟩
+
+/-- non-vacuity: `goos:/^linux$/` -/
+example : PlainLit bLinux := by
+  intro c hc
+  simp only [bLinux, List.mem_cons, List.not_mem_nil, or_false] at hc
+  rcases hc with rfl | rfl | rfl | rfl | rfl <;> decide
+
+example :
+    (match newFilterText cx0 (oracleOf rxLit) (Bytes.ofString "goos:/^linux$/ OR -.unit:(/^B\\/op$/ OR x)") with
+     | .ok f =>
+       let m := filterMatch f { name := [70], config := [(bGoos, Bytes.ofString "alinux")],
+                                 values := [⟨bBop, [], 0⟩, ⟨Bytes.ofString "MB/op", [], 1⟩, ⟨[120], [], 2⟩] }
+       !m.test 0 && m.test 1 && !m.test 2
      | .error _ => false) = true := by decide +kernel
 
 end C06
